@@ -1,5 +1,5 @@
 '''C01 - a task never starts before its dependencies finished and published.'''
-from ..rules import sched_rel, sched_worker, depgraph
+from ..rules import sched_rel, sched_worker, depgraph, patterns
 
 ID = 'C01'
 CLAIM = '''
@@ -53,10 +53,16 @@ def check(ctx):
     ctx.run(sched_rel.check_decision_inputs)
     ctx.run(sched_worker.check_backend_stateless)
     ctx.run(depgraph.check_swap_sem)
+    ctx.run(patterns.check_patterns, ID)
 
 
 from ..variants import sched as _v   # noqa: E402
 
 
-def variants(program):
+def _variants(program):
     return _v.variants(program, ID)
+
+
+def variants(program):
+    from ..variants import patterns as _pv
+    return list(_variants(program)) + _pv.variants(program, ID)
